@@ -39,8 +39,6 @@ KANI = {
             "bound": "sequential (Kani has no threads); num_txs <= 4; unwind 6"},
     "kani-u22b": {"dir": "kani/u22b", "props": ["C13"],
              "bound": "account schedules of <= 3 transactions (thorough: 4), fully symbolic 256-bit costs; unwind 34 (U256 == is a 32-byte memcmp)"},
-    "kani-u23": {"dir": "kani/u23", "props": ["C13"],
-            "bound": "journals of 2 balance transfers over 3 accounts (symbolic endpoints, 16-bit values, symbolic delegation flags, CALL/CREATE root transfer); light stand-ins for Address/U256/HashMap; forward-simulation oracle"},
 }
 
 
